@@ -81,6 +81,14 @@ C04(f, g) ==
     : i \in LiveSlots(f) }
   \cup If(\E t \in Types : g.stored[t] # None /\ ~HasType(f, t), "C04:lost_block")
 
+\* reading a block through the open object returns what was stored (C04), whatever the object
+\* may remember from earlier reads
+C04read(g, v) ==
+  IF ~v.on THEN {}
+  ELSE If(\E k \in 1..NTypes :
+            LET t == T.types[k] IN
+            t \in Decodable /\ g.stored[t] # None /\ v.get[k] # g.stored[t].u, "C04:read_ne_stored")
+
 \* compactness (C09)
 C09(f, g) ==
   IF ~g.compact THEN {}
@@ -173,6 +181,8 @@ StepClauses(pre, ev, o, out, f, g2) ==
   \cup If(~mut /\ changed /\ pre.dirty, "C07:changed_after_failure")
   \* --- bytes change only through a mutator in a write context
   \cup If(ok /\ changed /\ ~mut, "C08:reader_changed_bytes")
+  \* the object Tdf.copy returns accepted a mutation although allow_write() was never called on it
+  \cup If(ev.leak, "C08:copy_is_write_enabled")
   \cup If(ok /\ changed /\ mut /\ ~CanWrite(pre.s.m), "C08:changed_outside_write_ctx")
   \cup If(~ob.mem.inside /\ ob.mem.fds # 0, "C08:handle_leak")
   \cup If(ob.mem.inside /\ ob.mem.fds > 1, "C08:handle_leak")
@@ -181,7 +191,7 @@ StepClauses(pre, ev, o, out, f, g2) ==
   \cup If(sound /\ ~UniqueTypes(f), "C11:duplicate_types")
   \* (two live ranges that overlap, or a live range outside the file, cannot both / at all hold
   \* the bytes that were stored: the frame condition is broken together with C03)
-  \cup (IF sound THEN C04(f, g2) ELSE If(~NoOverlap(f) \/ ~RangesOK(f) \/ d.flen # FileLen(f), "C04:content"))
+  \cup (IF sound THEN C04(f, g2) \cup C04read(g2, ob.view) ELSE If(~NoOverlap(f) \/ ~RangesOK(f) \/ d.flen # FileLen(f), "C04:content"))
   \* (the length clauses only need the table and the file length: they are judged even when
   \* the file is structurally broken)
   \cup (IF sound THEN C09(f, g2)
@@ -189,7 +199,11 @@ StepClauses(pre, ev, o, out, f, g2) ==
   \cup (IF pre.s.g.compact /\ ok /\ o.op = "add" /\ d.flen # pre.flen + o.b.sz THEN {"C09:grow_exact"} ELSE {})
   \cup (IF pre.s.g.compact /\ ok /\ o.op = "remove" /\ HasType(pre.s.f, o.t)
            /\ d.flen # pre.flen - pre.s.f.table[FirstOf(pre.s.f, o.t)].size THEN {"C09:shrink_exact"} ELSE {})
-  \cup (IF sound THEN C10(f, ob) ELSE {})
+  \* (comparing the three tables needs no more than a table that could be parsed)
+  \cup (IF sound THEN C10(f, ob)
+        ELSE IF d.short \/ Len(f.table) # f.n THEN {}
+        ELSE If(ob.mem.inside /\ ob.mem.has_entries /\ AbsTable(ob.mem.entries) # f.table, "C10:mem_ne_disk")
+             \cup If(ob.reopen.ok /\ AbsTable(ob.reopen.entries) # f.table, "C10:reopen_ne_disk"))
   \cup (IF sound THEN C11view(f, ob.view) ELSE {})
   \* --- exact conformance with the predicted file
   \cup If(sound /\ ok /\ exp /\ mut /\
